@@ -9,7 +9,7 @@ terminate without panic and stay on the run of syllables around the position the
 namespace Chewing.C01
 open Chewing Chewing.C04 Chewing.C05 Chewing.C06
 
-variable {D L : Type} {env : Env D L} {G : D → Prop}
+variable {D L : Type} {env : Env D L} {G : D → Prop} {w : Prop}
 
 /-! ## `next_selection_point` -/
 
@@ -238,36 +238,36 @@ theorem prevPt_range {s : PhraseSel} (hr : RangeOK s) (ha : Anchor s) {b e : Nat
 
 /-! ## the four jumps at the API -/
 
-theorem PhraseOK.range {sh : Shared D L} {p : PhraseSel} (h : PhraseOK env sh p) : RangeOK p := ⟨h.lt, h.le, h.syl⟩
+theorem PhraseOK.range {sh : Shared D L} {p : PhraseSel} (h : PhraseOK env w sh p) : RangeOK p := ⟨h.lt, h.le, h.syl⟩
 
-theorem PhraseOK.move {sh : Shared D L} {p p' : PhraseSel} (h : PhraseOK env sh p) (hs : p'.strategy = p.strategy)
-    (hr : RangeOK p') (hk : Keep p p') : PhraseOK env sh p' :=
-  ⟨hk.com.trans h.com, hr.lt, hr.le, hr.syl, (fun c hc => by rw [hs]; exact h.word c (by rw [← hk.com]; exact hc)),
+theorem PhraseOK.move {sh : Shared D L} {p p' : PhraseSel} (h : PhraseOK env w sh p) (hs : p'.strategy = p.strategy)
+    (hr : RangeOK p') (hk : Keep p p') : PhraseOK env w sh p' :=
+  ⟨hk.com.trans h.com, hr.lt, hr.le, hr.syl, (fun hw c hc => by rw [hs]; exact h.word hw c (by rw [← hk.com]; exact hc)),
    h.anchor.keep hk⟩
 
 /-- **`jump_to_{first,last,next,prev}_selection_point`** (`chewing_cand_list_{first,last,next,prev}`) in every
     state — also while a phrase candidate list is open: returns, and the invariant holds again -/
-theorem jump_api_ok {e : Editor D L} (hi : EditorInv env G e) (w : Nat) :
-    OkAnd (fun x => EditorInv env G x.1) (e.jump env w) := by
+theorem jump_api_ok {e : Editor D L} (hi : EditorInv env G w e) (which : Nat) :
+    OkAnd (fun x => EditorInv env G w x.1) (e.jump env which) := by
   unfold Editor.jump
   split
   · next s hst =>
-    have hs : SelInv env e.shared s := by have := hi.st; rw [hst] at this; exact this
+    have hs : SelInv env w e.shared s := by have := hi.st; rw [hst] at this; exact this
     split
     · next p hp =>
-      have hpo : PhraseOK env e.shared p := by have := hs.sel; rw [hp] at this; exact this
+      have hpo : PhraseOK env w e.shared p := by have := hs.sel; rw [hp] at this; exact this
       -- the editor with the selector moved to a well-formed range
-      have fin : ∀ p' : PhraseSel, PhraseOK env e.shared p' →
-          EditorInv env G { e with state := .selecting { s with sel := .phrase p', pageNo := 0 } } :=
+      have fin : ∀ p' : PhraseSel, PhraseOK env w e.shared p' →
+          EditorInv env G w { e with state := .selecting { s with sel := .phrase p', pageNo := 0 } } :=
         fun p' hp' => ⟨hi.sh, ⟨hp', fun _ => .inl ⟨p', rfl⟩⟩⟩
       dsimp only
       split
       · -- first: `init` again from the anchor
         obtain ⟨p', hq, q1, q2, q3, q4, q5, q6, _, _⟩ := init_ok (env := env) p.forward p.strategy p.com p.orig e.shared.dict
-          hpo.anchor.orig_lt (anchor_syl hpo.range hpo.anchor) hpo.word
+          hpo.anchor.orig_lt (anchor_syl hpo.range hpo.anchor)
         rw [hq]
         exact .ok (fin p' ⟨q1.trans hpo.com, q3, by rw [q1]; exact q4, by rw [q1]; exact q5,
-          (fun c hc => by rw [q2]; rw [q1] at hc; exact hpo.word c hc), q6⟩)
+          (fun hw c hc => by rw [q2]; rw [q1] at hc; exact hpo.word hw c hc), q6⟩)
       · -- last
         obtain ⟨p', hq, hj⟩ := jumpToLast_ok (env := env) e.shared.dict p hpo.range
         rw [hq]
